@@ -51,6 +51,10 @@ def t3_case(args):
         if shape == "extra-placeholder":
             out = "out.txt"
             extra = ["__parent__e.log"]          # a name that looks like the internal place-holder (shape of finding D16)
+        if extra and shape != "extra-placeholder" and rng.random() < 0.5:
+            # something already lies where an additional file belongs (the by-product of an earlier run, say):
+            # what the command wrote must still end up there
+            sp.files[extra[0]] = "OLD-BYPRODUCT\n"
         p1 = t3.Proc("w", kind="cattok", ins=[("a", [(s0, "out")])], outs=[("o", out)], extra=extra)
         i1 = sp.proc(p1)
         p2 = t3.Proc("r", kind="cat", ins=[("a", [(i1, "o")])], outs=[("o", "final.txt")])
